@@ -142,6 +142,8 @@ def defer_measurements(
                     raise ValueError(f'Deferred measurement for key={key} not found.')
                 if index >= len(measurement_qubits[key]) or index < -len(measurement_qubits[key]):
                     raise ValueError(f'Invalid index for {key}')
+            # Index -1 and the equivalent non-negative index name the same measurement.
+            keys = sorted({(key, index % len(measurement_qubits[key])) for key, index in keys})
 
             # Try every possible datastore state (exponential in the number of keys) against the
             # condition, and the ones that work are the control values for the new op.
